@@ -372,6 +372,13 @@ func (fr *Frame) applyContract(c *Contract, fn *ssa.Function, key string, args [
 		names[g.Name] = cands[0]
 	}
 	fr.vc.relied[key] = true
+	if cv, ok := c.Attrs["callers"]; ok && strings.HasPrefix(cv, "assume-noop") && (res == nil || res.Len() == 0) {
+		// the body is verified against the contract, but call sites treat the
+		// call as having no effect on the modelled state (an assumption that
+		// is reported: it holds for the states the callers' contracts admit)
+		fr.vc.assumed["callers of "+key+" treat the call as a no-op (its preconditions are not checked there): "+strings.TrimSpace(strings.TrimPrefix(cv, "assume-noop"))] = true
+		return resultVal(fr, res, "res_"+sanitize(key))
+	}
 	if len(fr.eng.cf.AssumedInvs) > 0 && (len(c.Modifies) > 0 || len(c.Ensures) > 0) {
 		// the assumed data-structure invariants hold at every call boundary,
 		// also in the state the call starts from
